@@ -147,9 +147,17 @@ def composer_components(ctx: Ctx, rule: str, floor: int = 14) -> None:
             if not (isinstance(n, ast.Call) and (prog.dotted(f, n.func) or "") == comp.qname):
                 continue
             kws = {k.arg: k.value for k in n.keywords}
+            # positional arguments take the composer's parameters in order
+            for i_, a_ in enumerate(n.args):
+                if i_ < len(comp.params) and not isinstance(a_, ast.Starred):
+                    kws.setdefault(comp.params[i_], a_)
             is_input = isinstance(kws.get("body_sig"), ast.Constant) and kws["body_sig"].value is None
             role = "input signature (call-site context of nested keeps)" if is_input else "return signature"
             required = ["arg_ctx", "ext_deps", "ext_vars"] if is_input else list(COMPONENTS)
+            # an inspector that runs no visitor over a body (the class inspector for a class without methods) has no calls, loads, external names or
+            # tracked variables of its own to hand over: the text of the body and the argument binding are what it must pass
+            if not any(isinstance(y, ast.Call) and unparse(y.func).split(".")[-1].endswith("Visitor") for y in f.own_nodes()):
+                required = [c_ for c_ in required if c_ in ("body_sig", "arg_ctx")]
             for cname in required:
                 n1 += 1
                 a = kws.get(cname)
